@@ -449,7 +449,7 @@ pub fn record(a: &Args) -> Report {
   let mut f = std::io::BufWriter::new(std::fs::File::create(out).expect("create"));
   for run in 0..runs {
     let mut rng = rng_from(seed, run);
-    let (name, mut order) = orders(&mut rng, run);
+    let (name, mut order) = orders(&mut rng, run + a.u64("order-offset", 0));
     order.truncate(steps);
     let mut g = GGM::setup();
     let fr = fresh_truth(&g, &mut rep);
@@ -651,6 +651,9 @@ pub fn export(a: &Args) -> Report {
     let fr = fresh_truth(s.verif_pprf(), &mut rep);
     let mut p: BTreeSet<u8> = BTreeSet::new();
     let mut hist: Vec<u8> = Vec::new();
+    // a long-lived follower that is re-synchronised from the leader's exported state after
+    // every puncture (set_private_key on an instance that already holds an older state)
+    let mut follower: Option<Server> = import_server(&export_bytes(&s));
     for x in order {
       if matches!(guard(|| s.puncture(x)), Guard::Done(Ok(()))) {
         p.insert(x);
@@ -668,6 +671,21 @@ pub fn export(a: &Args) -> Report {
         }
       }
       check_retained(s.verif_pprf(), &fr, &p, &hist, &mut rep, "exporter");
+      if let Some(f) = follower.as_mut() {
+        if let Ok(st) = bincode::deserialize::<ServerKeyState>(&bytes) {
+          let _ = guard(|| f.set_private_key(st));
+          check_retained(f.verif_pprf(), &fr, &p, &hist, &mut rep, "resynced-follower");
+          let fb = export_bytes(f);
+          for fs in &forb {
+            if contains(&fb, fs).is_some() {
+              rep.violation("C11", "Server::set_private_key", "resync:seed-on-punctured-path",
+                "the re-exported state of a follower re-synchronised after this puncture contains a forbidden seed".into(),
+                json!({"history": hist}));
+              break;
+            }
+          }
+        }
+      }
       match guard(|| import_server(&bytes)) {
         Guard::Done(Some(s2)) => {
           check_retained(s2.verif_pprf(), &fr, &p, &hist, &mut rep, "importer");
